@@ -1,6 +1,7 @@
 package checks
 
 import (
+	"bytes"
 	"fmt"
 
 	"github.com/gabriel-vasile/mimetype"
@@ -85,7 +86,8 @@ func c17Run(c *core.Ctx) {
 		}
 	}
 	W := corpus(c)
-	tails := [][]byte{nil, []byte("\nThe quick brown fox jumps over the lazy dog, again and again...\n"), make([]byte, 64), bytesOf(0xFF, 64)}
+	tails := [][]byte{nil, []byte("\nThe quick brown fox jumps over the lazy dog, again and again...\n"), make([]byte, 64), bytesOf(0xFF, 64),
+		make([]byte, 4300), bytes.Repeat([]byte("lorem ipsum dolor sit amet\n"), 160), bytesOf(0xFF, 4300)}
 	// (1) witnesses x tails
 	for _, w := range W {
 		for _, t := range tails {
